@@ -253,6 +253,8 @@ impl Runner {
 
     /// Wait for a build to complete.  May block for a long time.
     pub fn wait(&mut self, mut output: impl FnMut(BuildId, Vec<u8>)) -> FinishedTask {
+        #[cfg(feature = "verif")]
+        crate::verif::wait_hook(self.running);
         loop {
             match self.rx.recv().unwrap() {
                 Message::Output((bid, line)) => output(bid, line),
